@@ -447,6 +447,133 @@ def classify_known(scen, plan, key, text, out):
     return None
 
 
+# --------------------------------------------------------------------------
+# part C: interrupted blocking poll on a virtual clock (harness/c16_poll.c)
+# --------------------------------------------------------------------------
+POLL_KNOWN_KEY = "io_poll_eintr_retry_subtracts_elapsed_twice"
+POLL_KNOWN_TEXT = ("uv__io_poll (src/unix/linux.c update_timeout: real_timeout -= loop->time - base) never advances base, so from the "
+                   "second interrupted/event-less wake-up on the time since entry is subtracted again from the already reduced "
+                   "real_timeout: the poll returns before its timeout and uv_run(UV_RUN_ONCE) returns without the timer having "
+                   "fired; e.g. 200 ms timer, epoll_pwait interrupted after 50, 50, 50 ms: calls 200, 150, 50, return at 150 ms")
+
+
+def poll_cases(rng, thorough):
+    cases = []
+    for mode in ("once", "default"):
+        for metrics in (0, 1):
+            for T in (1, 7, 200, 1000):
+                half = max(T // 2, 1)
+                scripts = [[], ["t"], ["i0"], ["i1"], ["i%d" % half], ["i%d" % (T - 1)], ["i%d" % T], ["i%d" % (T + 50)],
+                           ["e0"], ["e1"], ["e%d" % half], ["i0", "e1"], ["i1", "e1"], ["i%d" % half, "e0"]]
+                for k in (1, 3, 50):
+                    scripts.append(["i0"] * k)
+                    scripts.append(["i1"] * k)
+                    scripts.append(["i%d" % max(T // (k + 1), 1)] * k)
+                    scripts.append(["i0"] * k + ["i%d" % half])
+                    scripts.append(["i%d" % half] + ["i0"] * k)
+                    scripts.append(["i%d" % rng.randint(0, max(T // k, 1)) for _ in range(k)])
+                    scripts.append(["i0"] * k + ["e1"])
+                for _ in range(40 if thorough else 6):
+                    n = rng.randint(1, 8)
+                    scripts.append([rng.choice(["i0", "i1", "i%d" % rng.randint(0, T), "i%d" % half, "t", "e%d" % rng.randint(0, T)])
+                                    for _ in range(n)])
+                for sc in scripts:
+                    cases.append("%s %d %d ; %s" % (mode, metrics, T, " ".join(sc)))
+    # every script of length <= 3 over a small alphabet
+    alpha = ["i0", "i1", "i5", "i10", "t", "e1"]
+    for mode in ("once",):
+        for metrics in (0, 1):
+            for a in alpha:
+                for b in alpha + [None]:
+                    for c in (alpha + [None]) if b else [None]:
+                        sc = [x for x in (a, b, c) if x]
+                        cases.append("%s %d 10 ; %s" % (mode, metrics, " ".join(sc)))
+    return cases
+
+
+def poll_parse(line):
+    """-> due, runs: [ {phases: [ {given, calls: [(t, now, ans)], blocked} ], fired_at, uv_now, ret, ret_at} ]"""
+    toks = line.split()
+    due, runs, cur, ph = None, [], None, None
+    for t in toks:
+        if t.startswith("due="):
+            due = int(t[4:])
+        elif t == "R":
+            cur = {"phases": [], "fired": None, "ret": None, "async": 0}
+            runs.append(cur)
+        elif cur is None:
+            continue
+        elif t[0] == "P" and t[1:].lstrip("-").isdigit():
+            ph = {"given": int(t[1:]), "calls": [], "blocked": None, "hung": False}
+            cur["phases"].append(ph)
+        elif t[0] == "w" and ph is not None:
+            m = re.match(r"w(-?\d+)@(-?\d+):(\w*)$", t)
+            if m:
+                ph["calls"].append((int(m.group(1)), int(m.group(2)), m.group(3)))
+        elif t == "H" and ph is not None:
+            ph["hung"] = True
+        elif t[0] == "Q" and ph is not None:
+            ph["blocked"] = int(t[1:])
+            ph = None
+        elif t.startswith("T@"):
+            a, b = t[2:].split(",")
+            cur["fired"] = (int(a), int(b))
+        elif t.startswith("A@"):
+            cur["async"] += 1
+        elif t[0] == "r" and "@" in t:
+            cur["ret"] = (int(t[1:].split("@")[0]), int(t.split("@")[1]))
+    return due, runs
+
+
+def poll_monitor(case, line):
+    """None, or (key, text): key 'late' = the property is violated, POLL_KNOWN_KEY = the early wake-up"""
+    due, runs = poll_parse(line)
+    if due is None or not runs or "end fired=1" not in line:
+        if " H " in line:
+            return None
+        return ("late", "the timer callback never ran: %s" % line[:200])
+    early = None
+    for r in runs:
+        for ph in r["phases"]:
+            if ph["hung"] or not ph["calls"]:
+                continue
+            g, base = ph["given"], ph["calls"][0][1]
+            if g >= 0 and ph["blocked"] is not None and ph["blocked"] > g:
+                return ("late", "one uv__io_poll call blocked %d ms with a timeout of %d" % (ph["blocked"], g))
+            for (t, now, ans) in ph["calls"]:
+                if g >= 0 and (t < 0 or t > g - (now - base)):
+                    return ("late", "epoll_pwait was given %d ms after %d of %d ms had elapsed" % (t, now - base, g))
+            last = ph["calls"][-1][2]
+            if g > 0 and ph["blocked"] is not None and ph["blocked"] < g and last.startswith("i") and not r["async"]:
+                early = "uv__io_poll(%d) returned after %d ms without events (calls %s)" % (
+                    g, ph["blocked"], ",".join("%d@%d" % (t, n - base) for t, n, _ in ph["calls"]))
+        if r["fired"]:
+            at, now = r["fired"]
+            if at > due:
+                return ("late", "the %d ms timer fired at %d ms on the virtual clock" % (due, at))
+            if now != at:
+                return ("late", "uv_now() was %d when the timer fired at %d" % (now, at))
+    if early and case.startswith("once"):
+        return (POLL_KNOWN_KEY, early + "; uv_run(UV_RUN_ONCE) returned before the timer was due")
+    return None
+
+
+def poll_model_cases(case, line):
+    """one model case per uv__io_poll call of the implementation's trace + the impl line to compare"""
+    metrics = case.split()[1]
+    due, runs = poll_parse(line)
+    out = []
+    for r in runs:
+        for ph in r["phases"]:
+            if ph["hung"] or not ph["calls"] or ph["blocked"] is None:
+                continue
+            base = ph["calls"][0][1]
+            answers = ",".join(a for _, _, a in ph["calls"])
+            impl = "P%d calls=%s Q%d" % (ph["given"], ",".join("w%d@%d" % (t, n - base) for t, n, _ in ph["calls"]), ph["blocked"])
+            out.append(("io_poll %s %d ; - ; %s" % (metrics, ph["given"], answers or "-"), impl))
+    return out
+
+
 _reported = set()
 
 
@@ -462,7 +589,7 @@ def report(chk, key, text, replay):
         if kk in _reported:
             return
         _reported.add(kk)
-        chk.violation("unlisted finding %s: %s" % (kk, KNOWN_TEXT.get(kk) or text), replay)
+        chk.violation("unlisted finding %s: %s" % (kk, KNOWN_TEXT.get(kk) or (POLL_KNOWN_TEXT if kk == POLL_KNOWN_KEY else text)), replay)
         return
     chk.violation("%s: %s" % (key, text), replay)
 
@@ -475,6 +602,8 @@ def main():
         lib = vf.build_libuv(chk.scratch, "asan")
         exe = vf.cc_harness(chk.scratch, "c16_faults", ["c16_faults.c"], lib=lib, flavour="asan",
                             wraps=WRAPS, extra=["-no-pie"])
+        hpoll = vf.cc_harness(chk.scratch, "c16_poll", ["c16_poll.c"], lib=lib, flavour="asan",
+                              wraps=["clock_gettime", "epoll_pwait", "uv__io_poll"])
         model = vf.model_bin("C16")
     except vf.BuildError as e:
         chk.violation("build failed: %s" % str(e)[:300], {"kind": "build", "log": str(e)}, found_input=False)
@@ -581,6 +710,57 @@ def main():
         chk.corr("unit: modelled entry points under sequential oracles", len(cases))
     chk.sample({"unit_case": cases[3] if len(cases) > 3 else "", "impl": outs[3][:300] if len(outs) > 3 else "",
                 "model": mouts[3] if len(mouts) > 3 else ""})
+
+    # ---------------- part C ----------------
+    pcases = []
+    cpath = os.path.join(vf.VERIF, "corpus", "C16", "poll.txt")
+    if os.path.exists(cpath):
+        pcases += [ln.strip() for ln in open(cpath) if ln.strip() and not ln.startswith("#")]
+    pcases += poll_cases(chk.rng, thorough)
+    penv = dict(env)
+    penv["ASAN_OPTIONS"] = "detect_leaks=0:abort_on_error=0"
+    pouts, prc, perr = vf.run_lines([hpoll], pcases, timeout=600, env=penv, shards=8)
+    if len(pouts) != len(pcases):
+        chk.violation("poll: harness produced %d lines for %d cases" % (len(pouts), len(pcases)),
+                      {"kind": "harness", "log": (perr or "")[-1500:]}, found_input=False)
+    else:
+        mc, mi, owner = [], [], []
+        nlate = 0
+        for c, o in zip(pcases, pouts):
+            chk.count("poll", c + "=>" + o)
+            v = poll_monitor(c, o)
+            if v is not None:
+                if v[0] == POLL_KNOWN_KEY:
+                    report(chk, v[0], v[1], {"kind": "monitor", "case": c, "impl": o[:1500], "known_key": POLL_KNOWN_KEY})
+                else:
+                    nlate += 1
+                    if nlate <= 3:
+                        chk.violation("poll: %s" % v[1], {"kind": "monitor", "obligation": "uv__io_poll timeout loop",
+                                                           "case": c, "impl": o[:1500]})
+            for m_case, m_impl in poll_model_cases(c, o):
+                mc.append(m_case)
+                mi.append(m_impl)
+                owner.append((c, o))
+        mo, _, _ = vf.run_lines([model], mc, shards=4)
+        nb = 0
+        if len(mo) != len(mc):
+            chk.violation("poll: model produced %d lines for %d cases" % (len(mo), len(mc)), {"kind": "correspondence"}, found_input=False)
+        else:
+            for m_case, m_impl, m_out, (c, o) in zip(mc, mi, mo, owner):
+                mm = m_out.split(" end=")[0]
+                if vf.canon(mm) != vf.canon(m_impl):
+                    nb += 1
+                    chk.cov["disagreements_checked"] += 1
+                    if nb <= 3:
+                        v = poll_monitor(c, o)
+                        chk.violation("poll correspondence: uv__io_poll and Model/Faults.v io_poll disagree: %s vs model %s%s" %
+                                      (m_impl, mm, ("; " + v[1]) if v else ""),
+                                      {"kind": "correspondence", "obligation": "Model/Faults.v io_poll = uv__io_poll timeout loop",
+                                       "case": c, "impl": o[:1500], "model_case": m_case, "model": m_out},
+                                      found_input=bool(v and v[0] == "late"))
+        chk.corr("poll: scripted EINTR / event / timeout answers of a blocking epoll_pwait on a virtual clock", len(pcases))
+        chk.cov["poll_phases_compared_with_model"] = len(mc)
+        chk.sample({"poll_case": pcases[min(20, len(pcases) - 1)], "impl": pouts[min(20, len(pouts) - 1)][:300]})
 
     # ---------------- part B ----------------
     refs, refpts = {}, {}
